@@ -86,6 +86,8 @@ def modules():
     add('fsq-sym', lambda: FSQ([2, 3, 16], preserve_symmetry=True), 3, single=False)
     add('fsq-noise', lambda: FSQ([5, 4], noise_dropout=0.5), 2, single=False)
     add('rfsq', lambda: ResidualFSQ(levels=[5, 3], num_quantizers=4, dim=2), 2, single=False)
+    add('rfsq-deep', lambda: ResidualFSQ(levels=[8, 5, 5, 3], num_quantizers=8, dim=4), 4, single=False)        # (L - 1) ** 7 = 823543 leaves the float16 range
+    add('rfsq-deep-proj', lambda: ResidualFSQ(levels=[8, 5, 5, 3], num_quantizers=8, dim=6), 6, single=False)
     add('lfq', lambda: LFQ(dim=4, codebook_size=16, commitment_loss_weight=0.25), 4, single=False)
     add('lfq-extreme-temp', lambda: LFQ(dim=3, codebook_size=8), 3, single=False, kw=dict(inv_temperature=1e4))
     add('lfq-spherical', lambda: LFQ(dim=3, codebook_size=8, spherical=True, experimental_softplus_entropy_loss=True), 3, single=False)
@@ -235,6 +237,42 @@ def correspond(ctx, scale):
                         failures.append({'key': f'{m["name"]}:param-{mode}:non-finite:{bad[0].split("/")[0]}', 'what': f'{m["name"]} with parameter {pn} degenerate ({mode}; an exactly-zero column / row / tensor), finite random input, '
                                          f'train={train}: non-finite values in {bad}', 'case': dict(module=m['name'], parameter=pn, mode=mode, train=train)})
                         break
+        # a module that went through a LOW-PRECISION CAST AND BACK (.half() / .bfloat16() then .float(): an fp16 export or inference pass, then training
+        # resumes): its float buffers were rounded - or overflowed - on the way; finite inputs still give finite outputs, gradients and state
+        if rep == 0:
+            for cast in ('half', 'bfloat16'):
+                try:
+                    mod = getattr(m['mk'](), cast)().float()
+                except Exception:
+                    continue
+                for fam in ('randn', 'zeros', 'const'):
+                    for train in (True, False):
+                        mod.train(train)
+                        x = {'randn': torch.randn(2, 3, m['dim']), 'zeros': torch.zeros(2, 3, m['dim']), 'const': torch.full((2, 3, m['dim']), 0.37)}[fam]
+                        if m['name'] == 'latent':
+                            x = x.movedim(-1, 1)
+                        x = x.clone().requires_grad_(True)
+                        key = f'{m["name"]}:cast-round-trip-{cast}:{fam}:train={train}'
+                        try:
+                            ret = mod(x, **m['kw'])
+                            outs = [('output/' + str(i), r) for i, r in enumerate(ret if isinstance(ret, tuple) else (ret,)) if isinstance(r, torch.Tensor)]
+                            if hasattr(ret, '_fields'):
+                                outs = [(f, getattr(ret, f)) for f in ret._fields]
+                            bad = finite_report(key, outs)
+                            fl = [r for _, r in outs if isinstance(r, torch.Tensor) and r.dtype.is_floating_point and r.requires_grad]
+                            if fl:
+                                g, = torch.autograd.grad(sum(r.sum() for r in fl), x, allow_unused=True)
+                                bad += finite_report(key, [('input-gradient', g)])
+                            bad += finite_report(key, [('state/' + k, v) for k, v in mod.state_dict().items()] + [('buffer/' + k, v) for k, v in mod.named_buffers()])
+                        except Exception as ex:
+                            failures.append({'key': f'{m["name"]}:cast-round-trip:exception:{type(ex).__name__}', 'what': f'{m["name"]} after .{cast}().float(): {ex!r}', 'case': dict(module=m['name'], cast=cast)})
+                            break
+                        ev += 1
+                        dist['cast_round_trip_calls'] = dist.get('cast_round_trip_calls', 0) + 1
+                        if bad:
+                            failures.append({'key': f'{m["name"]}:cast-round-trip:non-finite:{bad[0].split("/")[0]}', 'what': f'{m["name"]} after .{cast}().float(), "{fam}" input, train={train}: non-finite values in {bad[:4]}',
+                                             'case': dict(module=m['name'], cast=cast, family=fam, train=train)})
+                            break
         # uninitialised memory: under torch.use_deterministic_algorithms(True) every torch.empty() is filled with NaN, which turns "allocated but
         # never written" state into a deterministic observation.  A module BUILT in that mode has finite state, and its first call - frozen where the
         # class supports it, so that nothing is initialised lazily behind the caller's back - returns finite values
